@@ -629,7 +629,12 @@ func (d *jsonDecDriver[T]) nextValueBytes() []byte {
 	// cursor = d.d.rb.c - 1 // cursor starts just before non-whitespace token
 	switch d.tok {
 	default:
-		_, d.tok = d.r.jsonReadNum()
+		// a number ends at the first byte that cannot be part of it. jsonReadNum consumes
+		// that byte as the next token (d.tok): it is not part of the value's bytes.
+		var bs []byte
+		bs, d.tok = d.r.jsonReadNum()
+		d.r.stopRecording()
+		return bs
 	case 'n':
 		d.checkLit3([3]byte{'u', 'l', 'l'}, d.r.readn3())
 	case 'f':
